@@ -100,9 +100,12 @@ def main(tier):
                 md = k in rec["dead"]
                 stats["dead_stmts"] += md
                 idd = cc.covered(k, ranges)
-                if md != idd:
+                if md and not idd:
+                    # pyscn reports LESS than the model: soundness is not at stake (completeness is property C02's business)
+                    stats["under_reported"] = stats.get("under_reported", 0) + 1
+                if idd and not md:
                     tie_mism += 1
-                    if idd and not md and len(suspects) < 60:
+                    if len(suspects) < 60:
                         suspects.append((m, name, k0, k, ranges))
                     if tie_mism <= 3:
                         ck.broken_ties.append("model tie: statement line %d of %s in %s: model says %s, pyscn ranges %s say %s"
@@ -139,14 +142,20 @@ def main(tier):
                 ir = sorted((a, e) for (a, e, *_r) in m["impl_dead"].get(name, []))
                 stats["builder_functions"] = stats.get("builder_functions", 0) + 1
                 if ir != b["ranges"]:
-                    rng_mism += 1
-                    if rng_mism <= 2:
-                        ck.broken_ties.append("builder tie: finding ranges of %s in %s: pyscn %s, Builder.v %s" % (name, m["path"], ir, b["ranges"]))
+                    # soundness only needs: every line pyscn reports lies in a range of the graph model (whose ranges the bounded
+                    # theorem ties to Flow.v); fewer or narrower findings are property C02's business
+                    extra_lines = [k for (a, e) in ir for k in range(a, e + 1) if not any(x <= k <= y for (x, y) in b["ranges"])]
+                    if extra_lines:
+                        rng_mism += 1
+                        if rng_mism <= 2:
+                            ck.broken_ties.append("builder tie: finding ranges of %s in %s: pyscn %s cover lines %s outside the ranges of Builder.v %s"
+                                                  % (name, m["path"], ir, extra_lines[:6], b["ranges"]))
+                    else:
+                        stats["ranges_narrower_than_model"] = stats.get("ranges_narrower_than_model", 0) + 1
                 if name in rows and rows[name]["complexity"] != b["cx"]:
-                    cx_mism += 1
-                    if cx_mism <= 2:
-                        ck.broken_ties.append("builder tie: complexity of %s in %s: pyscn %s, Builder.v %s" % (name, m["path"], rows[name]["complexity"], b["cx"]))
-        tie_mism += rng_mism + cx_mism
+                    cx_mism += 1          # complexity is property C03's business: recorded, not a broken tie of C01
+        stats["complexity_differs_from_builder"] = cx_mism
+        tie_mism += rng_mism
     if tie_mism or sem_mism:
         ck.notes.append("tie mismatches: model %d, semantics %d" % (tie_mism, sem_mism))
         # keep the first offending file for the replay
